@@ -1753,7 +1753,7 @@ class IniConfigFile(ConfigParser):
         Returns:
             list: Returns all of the parsed sections excluding DEFAULT.
         """
-        return list(sec for sec in self._dict.keys() if "DEFAULT" not in sec)
+        return list(sec for sec in self._dict.keys() if sec != "DEFAULT")
 
     def set(self, section, option, value=None):
         """
